@@ -6,6 +6,7 @@ import shutil
 
 import vlib
 from vlib import Check, ToolError
+from checks import front_common
 
 
 def keyfn(b, r):
@@ -46,6 +47,8 @@ def run(tier):
         "gRPC pushes are observed at Subscriber::notify (hook event NotifyConfig), not on a real stream",
         "SetTmpValue and full-value import change content without notification by design; outside this property",
     ]
+    # ---- front door: the same specification replayed through the real HTTP routes and gRPC services of a node
+    front_common.run_front(c, sc, quick, own_c10=True)
     shutil.rmtree(sc, ignore_errors=True)
     return c.finish(
         rule="behaviours = TLC simulation of ConfigCenter.tla with listeners (up to 4 long polls over key subsets with "
